@@ -83,3 +83,13 @@ CHECKS.update({
    design_ref='DESIGN.md 5 C16', note=NOTE_STD,
    technique='Coq round-trip proof (decimal codec by induction on fuel, tokeniser lemmas over a chunk normal form, induction over the code) + per-run correspondence and extracted reader as monitor'),
 })
+
+CHECKS.update({
+ 'C09': dict(
+   text=('Theorem about the literal model of ParseLoadFile (model/Load.v): for EVERY layout style of the canonical load-file text (letter case chosen per character, blanks or tabs, LF or CR-LF, comment / blank / ;name lines '
+         'between lines, a missing final newline, fields printed unsigned or signed), every core size 1..2^63, both dialects, every instruction form with fields below the core size and every entry point, the reader returns '
+         'exactly the instructions and entry point (C09_round_trip_partial); and what the reader accepts re-prints and re-reads to itself. PARTIAL: the assembler half (CompileWarrior on the same text) is not proved '
+         '(the full statement is kept as C09_full_statement); it is decided on every run by the correspondence: gmars\' ParseLoadFile and CompileWarrior on extracted renderings of generated warriors, against the warrior and against the extracted models.'),
+   design_ref='DESIGN.md 5 C09', note=NOTE_STD + ' The assembler half of the round trip is covered by differential testing only.',
+   technique='Coq round-trip proof for the load-file reader over all layout styles (chunk normal form of a line, induction over lines) + per-run two-stage correspondence for reader and assembler'),
+})
